@@ -43,10 +43,13 @@ func findReturnSite(body ast.Node, site string) token.Pos {
 }
 
 func (x *Exec) returnAssertions(st *State, in *ssa.Return, results []Val) {
-	if x.fc == nil || len(x.fc.RetAsrt) == 0 || !in.Pos().IsValid() {
+	if x.fc == nil || len(x.fc.RetAsrt) == 0 {
 		return
 	}
-	key := x.posKey(in.Pos())
+	key := "end" // the implicit return at the closing brace has no position
+	if in.Pos().IsValid() {
+		key = x.posKey(in.Pos())
+	}
 	canary := false
 	for _, ca := range x.fc.RetAsrt {
 		if ca.SitePos == "" || ca.SitePos != key || ca.FnSym == "" {
